@@ -16,6 +16,9 @@ class Ledger:
         self.ever_declared = {}  # path -> set of roles ever declared by any step ("out"/"vol")
         self.last_written = {}  # path -> sha last written by a StepUp-run step
         self.writers = {}  # path -> label of last writer
+        self.recorded = {}  # path -> hex digest StepUp last recorded for the file (or None)
+        self.observations = []
+        self._raw = {}  # path -> raw JSON text last seen, to avoid decoding at every commit
 
     def note_user(self, files, root="."):
         self.user_files = set(files)
@@ -27,6 +30,18 @@ class Ledger:
 
     def note_user_write(self, path, content: bytes):
         self.user_sha[path] = sha(content)
+
+    def commit_hook(self, con, ncommit):
+        """Called inside every committing transaction: what StepUp records for each file."""
+        from stepup.core.hash import FileHash
+
+        for label, raw in con.execute(
+                "SELECT node.label, file.hash FROM node JOIN file ON file.node = node.i"):
+            # The last digest StepUp stored; a later reset to "no hash" (PLANNED, reverted,
+            # noticed as modified) does not erase what it last knew about the content.
+            if raw is not None and self._raw.get(label) != raw:
+                self._raw[label] = raw
+                self.recorded[label] = FileHash.from_json(raw).digest.hex()
 
     def absorb(self, steplog):
         for e in steplog:
@@ -83,8 +98,15 @@ async def run_stage(spec, build, ledger, user_files, **kwargs):
     for action in build.get("user_actions", []):
         apply_user_action(action, ledger)
     rec.before = fs_snapshot(".")
+    inner_setup = kwargs.pop("observer_setup", None)
+
+    def observer_setup(obs):
+        obs.before_hooks.append(ledger.commit_hook)
+        if inner_setup is not None:
+            inner_setup(obs)
+
     rec.result = await run_build(serve_config(build), choices=build.get("choices", ()),
-                                 env=build_env(spec), **kwargs)
+                                 env=build_env(spec), observer_setup=observer_setup, **kwargs)
     rec.after = fs_snapshot(".")
     ledger.absorb(rec.result.steplog)
     return rec, files
